@@ -198,6 +198,11 @@ class ConvexSpheropolygon(Shape2D):
         angles = np.mod(angles, 2 * np.pi)
         num_verts = self.num_vertices
         verts = self._polygon.vertices[:, :2] - self._polygon.centroid[:2]
+        if self._polygon.normal[2] < 0:
+            # Stored counterclockwise about a normal that points down, i.e.
+            # clockwise in the xy plane; the construction below walks the
+            # vertices counterclockwise in that plane.
+            verts = verts[::-1]
 
         # compute intermediates
         v1 = np.roll(verts, 1, axis=0)
